@@ -297,7 +297,14 @@ def body_norm(case):
         # tensor the object denotes NOW (a norm or a dense form remembered per object would not)
         k = spec['seed'] % len(a.cores)
         da = np.array(da)             # (the dense reference of an order-1 train can be a view of its only core)
+        # (single entries are read before and after, with the same leading indices)
+        full_idx = [tuple(int(spec['seed'] // (3 + j)) % n for j, n in enumerate(list(spec['rows']) + list(spec['cols']))) for _ in range(1)]
+        for fi in full_idx:
+            close(np.asarray(a.element(list(fi))), da.reshape(list(spec['rows']) + list(spec['cols']))[fi], TOL, max(scale, 1e-300), 'element_value', 'element%s before the in-place update' % (fi,))
         a.cores[k] *= -2.5
+        for fi in full_idx:
+            close(np.asarray(a.element(list(fi))), -2.5 * da.reshape(list(spec['rows']) + list(spec['cols']))[fi], TOL, max(2.5 * scale, 1e-300), 'element_value',
+                  'element%s after core %d of the same object was rescaled in place' % (fi, k))
         got2 = a.norm(p=2)
         close(np.asarray(got2, dtype=float), 2.5 * want, TOL, max(2.5 * scale, 1e-300), 'norm_value', 'norm(p=2) after core %d of the same object was rescaled in place' % k)
         close(a.full().reshape(da.shape), -2.5 * da, TOL, max(2.5 * scale, 1e-300), 'full_value', 'full() after core %d of the same object was rescaled in place' % k)
